@@ -307,6 +307,33 @@ Fixpoint counter_run (c : counter_cfg) (value : N) (tr : list counter_in) : list
               counter_run c (counter_next c (ci_end i) value (ci_inc i) (ci_dec i) (ci_load i) (ci_loadv i)) r
   end.
 
+(* How a design uses one Counter object: which of inc() / dec() are called at all (this decides
+   m_incrementNeverUsed: the flag is cleared inside ConditionalScope{'1', true}, i.e. independently
+   of the caller's IF()), and under which conditions.  scope:
+     0  IF(inc) c.inc(); IF(dec) c.dec();            1  unconditional calls
+     2  IF(en) { IF(inc) c.inc(); IF(dec) c.dec(); }   3  IF(en) { IF(inc) c.inc(); } ELSE { IF(dec) c.dec(); }
+     4  IF(en) { c.inc(); c.dec(); }                    5  two call sites: IF(inc) c.inc(); IF(en) c.inc(); (same for dec)
+   ldkind: 0 no load; 1 IF(load) c.load(v); 2 IF(load) c.reset(); 3 IF(en) IF(load) c.load(v) *)
+Record counter_use := { cu_inc : bool; cu_dec : bool; cu_scope : N; cu_ldkind : N }.
+Definition counter_never (u : counter_use) : bool := negb (cu_inc u || cu_dec u).
+(* m_inc / m_dec as driven by the call sites *)
+Definition counter_eff (u : counter_use) (inc dec en : bool) : bool * bool :=
+  let '(i, d) := match cu_scope u with
+                 | 0 => (inc, dec)
+                 | 1 => (true, true)
+                 | 2 => (en && inc, en && dec)
+                 | 3 => (en && inc, negb en && dec)
+                 | 4 => (en, en)
+                 | _ => (inc || en, dec || en)
+                 end in
+  (cu_inc u && i, cu_dec u && d).
+Definition counter_use_in (c : counter_cfg) (u : counter_use) (inc dec en load : bool) (lv endv : N) : counter_in :=
+  let '(i, d) := counter_eff u inc dec en in
+  {| ci_inc := i; ci_dec := d;
+     ci_load := match cu_ldkind u with 0 => false | 3 => en && load | _ => load end;
+     ci_loadv := match cu_ldkind u with 2 => cc_reset c | _ => lv end;
+     ci_end := endv |}.
+
 (* counterUpDown(increment, decrement, reset, ctrW, resetValue):
    IF(increment) IF(!isLast) inc();  IF(decrement) IF(!isFirst) dec();  IF(reset) ctr.reset() *)
 Definition updown_next (w rv value : N) (inc dec rst : bool) : N :=
